@@ -6,6 +6,7 @@ import (
 	"sync/atomic"
 
 	"github.com/alttpo/snes/emulator"
+	"github.com/alttpo/snes/emulator/cpu65c816"
 
 	"verif/internal/mem"
 	"verif/internal/ref"
@@ -52,6 +53,57 @@ func (g *sysRig) load(s ref.State, stale bool, r *vf.Rng, img *mem.Image) {
 	tmp.loadPrim(s, stale, r)
 	g.s.CPU = tmp.prim
 	g.bm.M = img
+}
+
+// hookPlan is one program-counter callback that acts on its own CPU.
+type hookPlan struct {
+	at   uint32
+	kind int // 0 redirect to `to`, 1 request IRQ, 2 request NMI, 3 toggle carry, 4 one-shot (removes itself)
+	to   uint32
+}
+
+func (h hookPlan) String() string {
+	return fmt.Sprintf("$%06x:%s", h.at, []string{fmt.Sprintf("jump-to-$%06x", h.to), "request-irq", "request-nmi", "toggle-carry", "one-shot"}[h.kind])
+}
+
+// installHooks registers the plan on c. maxCalls bounds the number of callback invocations (0: no
+// bound): passing it raises mem.LimitExceeded, a logical step bound for runs that may not end.
+func installHooks(c *cpu65c816.CPU, plan []hookPlan, pending int, maxCalls int) {
+	calls := 0
+	guard := func(f func()) func() {
+		return func() {
+			calls++
+			if maxCalls > 0 && calls > maxCalls {
+				panic(mem.LimitExceeded{Reads: -calls})
+			}
+			f()
+		}
+	}
+	switch pending {
+	case 1:
+		c.TriggerIRQ()
+	case 2:
+		c.Interrupt = 2 // NMI
+	}
+	if len(plan) == 0 {
+		return
+	}
+	c.OnPC = map[uint32]func(){}
+	for _, h := range plan {
+		h := h
+		switch h.kind {
+		case 0:
+			c.OnPC[h.at] = guard(func() { c.RK, c.PC = byte(h.to>>16), uint16(h.to) })
+		case 1:
+			c.OnPC[h.at] = guard(func() { c.TriggerIRQ() })
+		case 2:
+			c.OnPC[h.at] = guard(func() { c.Interrupt = 2 })
+		case 3:
+			c.OnPC[h.at] = guard(func() { c.C ^= 1 })
+		default:
+			c.OnPC[h.at] = guard(func() { delete(c.OnPC, h.at) })
+		}
+	}
 }
 
 type countWriter struct {
@@ -438,13 +490,41 @@ func C12(r *vf.Run) {
 						cw = &rw.countWriter
 						A.s.Logger = rw
 					}
+					// callbacks that act on the CPU they are attached to (a host-side hook skipping or
+					// replacing a routine, raising an interrupt, patching a flag, a one-shot breakpoint):
+					// the same plan on both sides
+					var plan []hookPlan
+					if g.Intn(3) == 0 {
+						for h := 1 + g.Intn(3); h > 0; h-- {
+							hp := hookPlan{at: pcs[g.Intn(len(pcs))], kind: g.Intn(5), to: pcs[g.Intn(len(pcs))]}
+							if g.Intn(3) == 0 && len(plan) > 0 {
+								// hooks redirecting to each other's address
+								hp.kind, hp.to = 0, plan[len(plan)-1].at
+								plan[len(plan)-1].kind, plan[len(plan)-1].to = 0, hp.at
+							}
+							plan = append(plan, hp)
+						}
+					}
+					pendingAtEntry := 0
+					if g.Intn(6) == 0 {
+						pendingAtEntry = 1 + g.Intn(2) // an interrupt is already requested when the run starts
+					}
+					installHooks(&A.s.CPU, plan, pendingAtEntry, int(budget)+64)
+					ma.Limit = (int(budget) + 64) * 24
 					var ret bool
 					pan := vf.Try(func() { ret = A.s.RunUntil(target, budget) })
+					ma.Limit = 0
+					A.s.CPU.OnPC = nil
+					if le, ok := pan.(mem.LimitExceeded); ok {
+						r.Fail("rununtil-does-not-return", fmt.Sprintf("RunUntil($%06x, %d) was still running after %d bus reads / callback invocations (negative: callbacks); every instruction consumes at least one cycle, reads at most a dozen bytes and runs at most one callback; callbacks: %v", target, budget, le.Reads, plan), map[string]interface{}{"start": s.String(), "image_seed": img.Seed, "callbacks": fmt.Sprint(plan)})
+						continue
+					}
 					// B: the specification, literally
 					mb = img.Clone()
 					mb.NoRdSet = true
 					B.load(s, stale, g, mb)
 					B.s.Logger = nil
+					installHooks(&B.s.CPU, plan, pendingAtEntry, 0)
 					consumed, iters, steps := uint64(0), 0, 0
 					reason := "budget"
 					var bpan interface{}
@@ -460,14 +540,25 @@ func C12(r *vf.Run) {
 						}
 						steps++
 						consumed += uint64(c)
+						if c < 1 {
+							r.Fail("step-zero-cycles-with-callbacks", fmt.Sprintf("Step reported %d cycles at $%06x with callbacks %v registered", c, B.s.GetPC(), plan), nil)
+							break
+						}
 						if iters > int(budget)+2 {
 							r.Fail("spec-loop-overrun", "more iterations than cycles", nil)
 							break
 						}
 					}
+					B.s.CPU.OnPC = nil
 					r.Eval(1)
 					det := func() interface{} {
-						return map[string]interface{}{"start": s.String(), "image_seed": img.Seed, "overlay_bytes": len(img.Ov), "target": fmt.Sprintf("$%06x", target), "budget": budget, "program_kind": kind, "spec_steps": steps, "spec_stop": reason}
+						return map[string]interface{}{"start": s.String(), "image_seed": img.Seed, "overlay_bytes": len(img.Ov), "target": fmt.Sprintf("$%06x", target), "budget": budget, "program_kind": kind, "spec_steps": steps, "spec_stop": reason, "callbacks": fmt.Sprint(plan), "interrupt_pending_at_entry": pendingAtEntry}
+					}
+					if len(plan) > 0 {
+						cells["run:with-acting-callbacks"]++
+					}
+					if pendingAtEntry > 0 {
+						cells["run:interrupt-pending-at-entry:"+tclass]++
 					}
 					if (pan != nil) != (bpan != nil) {
 						r.Fail("rununtil-panic-parity", fmt.Sprintf("RunUntil panic=%v, single-stepping panic=%v", pan, bpan), det())
